@@ -11,6 +11,7 @@ import (
 	"crypto/elliptic"
 	"crypto/rand"
 	"crypto/rsa"
+	"net/url"
 	"sort"
 	"strings"
 	"sync"
@@ -21,6 +22,7 @@ import (
 
 	"github.com/ory/fosite"
 	"github.com/ory/fosite/compose"
+	"github.com/ory/fosite/handler/oauth2"
 	"github.com/ory/fosite/handler/openid"
 	"github.com/ory/fosite/handler/rfc8628"
 	"github.com/ory/fosite/storage"
@@ -43,7 +45,8 @@ type Cfg struct {
 	LDev        int      `json:"l_dev"`
 	LPar        int      `json:"l_par"`
 	LIDT        int      `json:"l_idt"`
-	Store       string   `json:"store"` // "mem" (reference store) | "contract" | "tx"
+	Store       string   `json:"store"`         // "mem" (reference store) | "contract" | "tx"
+	Key         string   `json:"key,omitempty"` // ID-token signing key: "" = RSA; "ec256", "jwk_es384", "jwk_es512", "jwk_rs384"
 }
 
 func DefaultCfg() Cfg {
@@ -162,8 +165,11 @@ type World struct {
 	UCs  map[string]string            // device code signature -> user code
 	IDTs []string
 
-	Verifier   map[int]string // per code id: the PKCE verifier used at authorization
-	PkceOf     map[int]string // per code id: method used
+	SignKey    interface{}           // the server's signing key (ID tokens, JWT access tokens)
+	SessionFn  func() fosite.Session // session handed to NewAuthorizeResponse / NewDeviceResponse (nil = NewSess(Subject))
+	ExtraAuthz url.Values            // additional authorization request parameters (prompt, max_age, ...)
+	Verifier   map[int]string        // per code id: the PKCE verifier used at authorization
+	PkceOf     map[int]string        // per code id: method used
 	DevRID     map[int]string
 	codeOwner  map[int]string
 	mu         sync.Mutex
@@ -210,6 +216,17 @@ func NewWorld(cfg Cfg) *World {
 		w.Mem.Clients[id] = newClient(id, id == "P")
 	}
 	w.Mem.Users[Subject] = storage.MemoryUserRelation{Username: Subject, Password: Password}
+	{ // client J authenticates with private_key_jwt; issuer iss-1 may send JWT-bearer grants for sub-1
+		_, _, k2 := Keys()
+		j := newClient("J", false)
+		j.RedirectURIs = []string{"https://j.example/cb"}
+		w.Mem.Clients["J"] = &fosite.DefaultOpenIDConnectClient{DefaultClient: j, TokenEndpointAuthMethod: "private_key_jwt",
+			TokenEndpointAuthSigningAlgorithm: "RS256",
+			JSONWebKeys:                       &jose.JSONWebKeySet{Keys: []jose.JSONWebKey{{Key: &k2.PublicKey, KeyID: "kid-j", Use: "sig", Algorithm: "RS256"}}}}
+		w.Mem.IssuerPublicKeys["iss-1"] = storage.IssuerPublicKeys{Issuer: "iss-1", KeysBySub: map[string]storage.SubjectPublicKeys{
+			"sub-1": {Subject: "sub-1", Keys: map[string]storage.PublicKeyScopes{
+				"kid-1": {Key: &jose.JSONWebKey{Key: &k2.PublicKey, Algorithm: "RS256", Use: "sig", KeyID: "kid-1"}, Scopes: []string{"a"}}}}}}
+	}
 	w.Hasher = plainHasher{}
 	rtl := time.Duration(cfg.LRT) * Tick
 	if cfg.LRT < 0 {
@@ -252,11 +269,12 @@ func NewWorld(cfg Cfg) *World {
 	default:
 		w.Store = w.Rec
 	}
-	keyGetter := func(context.Context) (interface{}, error) { return rk, nil }
-	if cfg.AT == "jwt" {
+	w.SignKey = SigningKey(cfg.Key)
+	keyGetter := func(context.Context) (interface{}, error) { return w.SignKey, nil }
+	if cfg.AT == "jwt" || cfg.Key != "" {
 		hm := compose.NewOAuth2HMACStrategy(w.Config)
 		strat := &compose.CommonStrategy{
-			CoreStrategy:               compose.NewOAuth2JWTStrategy(keyGetter, hm, w.Config),
+			CoreStrategy:               coreStrategy(cfg, keyGetter, hm, w.Config),
 			RFC8628CodeStrategy:        compose.NewDeviceStrategy(w.Config),
 			OpenIDConnectTokenStrategy: compose.NewOpenIDConnectStrategy(keyGetter, w.Config),
 			Signer:                     &jwt.DefaultSigner{GetPrivateKey: keyGetter},
@@ -312,4 +330,53 @@ func sortedCopy(a []string) []string {
 // DevStrategy returns the library's device/user code strategy for this world's config.
 func (w *World) DevStrategy() *rfc8628.DefaultDeviceStrategy {
 	return compose.NewDeviceStrategy(w.Config)
+}
+
+func coreStrategy(cfg Cfg, keyGetter func(context.Context) (interface{}, error), hm *oauth2.HMACSHAStrategy, config *fosite.Config) oauth2.CoreStrategy {
+	if cfg.AT == "jwt" {
+		return compose.NewOAuth2JWTStrategy(keyGetter, hm, config)
+	}
+	return hm
+}
+
+var (
+	ecKeys   = map[string]*ecdsa.PrivateKey{}
+	ecKeysMu sync.Mutex
+)
+
+// SigningKey returns the server signing key for a key kind of the C14 table.
+func SigningKey(kind string) interface{} {
+	rk, ek, rk2 := Keys()
+	_ = rk2
+	gen := func(name string, c elliptic.Curve) *ecdsa.PrivateKey {
+		ecKeysMu.Lock()
+		defer ecKeysMu.Unlock()
+		if k, ok := ecKeys[name]; ok {
+			return k
+		}
+		k, err := ecdsa.GenerateKey(c, rand.Reader)
+		if err != nil {
+			panic(err)
+		}
+		ecKeys[name] = k
+		return k
+	}
+	switch kind {
+	case "ec256":
+		return ek
+	case "jwk_es384", "jwk_es384_nohdr":
+		return &jose.JSONWebKey{Key: gen("p384", elliptic.P384()), Algorithm: "ES384", Use: "sig", KeyID: "k384"}
+	case "jwk_es512":
+		return &jose.JSONWebKey{Key: gen("p521", elliptic.P521()), Algorithm: "ES512", Use: "sig", KeyID: "k512"}
+	case "jwk_rs384":
+		return &jose.JSONWebKey{Key: rk, Algorithm: "RS384", Use: "sig", KeyID: "krs384"}
+	}
+	return rk
+}
+
+func (w *World) session() fosite.Session {
+	if w.SessionFn != nil {
+		return w.SessionFn()
+	}
+	return NewSess(Subject)
 }
